@@ -226,3 +226,33 @@ func WaitWorker(handler uintptr, limit time.Duration) (string, error) {
 		time.Sleep(200 * time.Microsecond)
 	}
 }
+
+// BlockedAt reports, for the wallet goroutine running fn ("masswallet.worker" / "masswallet.handle")
+// of the given handler, the runtime's wait state, whether that state is a blocking primitive (mutex,
+// semaphore, channel operation, select, condition variable, wait group) and the goroutine's stack
+// text. Two samples taken seconds apart that are blocking and identical mean the goroutine has not
+// moved: it is parked, not working.
+func BlockedAt(handler uintptr, fn string) (state string, blocking bool, stack string) {
+	tag := fmt.Sprintf("%s(0x%x", fn, handler)
+	for _, blk := range strings.Split(AllStacks(), "\n\n") {
+		if !strings.Contains(blk, tag) {
+			continue
+		}
+		blk = strings.TrimSpace(blk)
+		hdr := strings.SplitN(blk, "\n", 2)[0]
+		i, j := strings.Index(hdr, "["), strings.LastIndex(hdr, "]")
+		if i < 0 || j < i {
+			return "", false, blk
+		}
+		state = strings.TrimSpace(strings.Split(hdr[i+1:j], ",")[0])
+		for _, b := range []string{"sync.Mutex.Lock", "sync.RWMutex", "semacquire", "chan send", "chan receive", "select", "sync.Cond.Wait", "sync.WaitGroup.Wait"} {
+			blocking = blocking || strings.HasPrefix(state, b)
+		}
+		// drop the header (it may gain a wait time between samples)
+		if k := strings.Index(blk, "\n"); k >= 0 {
+			stack = blk[k+1:]
+		}
+		return state, blocking, stack
+	}
+	return "", false, ""
+}
